@@ -60,8 +60,8 @@ func TestC13(t *testing.T) {
 	var gm gaugeMax
 	http2.VerifSetGaugeHook(gm.observe)
 	defer http2.VerifSetGaugeHook(nil)
-	attacks := []string{"rapid-reset", "half-open", "priority-idle", "continuation-small-fields", "continuation-empty", "continuation-endless-literal", "body-over-limit-undeclared", "body-over-limit-declared", "content-length-lie", "ping-flood", "settings-flood", "ping-flood-no-read", "mixed"}
-	n := r.Pick(130, 3000)
+	attacks := []string{"rapid-reset", "half-open", "priority-idle", "continuation-small-fields", "continuation-empty", "continuation-endless-literal", "body-over-limit-undeclared", "body-over-limit-declared", "content-length-lie", "ping-flood", "settings-flood", "ping-flood-no-read", "mixed", "self-reset-slots", "body-limit-boundary", "continuation-endless-literal-refused"}
+	n := r.Pick(160, 3000)
 	for i := 0; i < n; i++ {
 		id := fmt.Sprintf("a%d", i)
 		if !r.Want(i, id) {
@@ -233,6 +233,70 @@ func c13Attack(r *vf.Run, t *testing.T, id string, rng *rand.Rand, gm *gaugeMax,
 					}
 				}
 				next += 2
+			}
+		case "self-reset-slots":
+			// complete requests whose handlers are parked; the peer then makes the server reset each stream itself
+			// (a WINDOW_UPDATE that overflows the stream's send window): the handler still runs and still holds its slot
+			for i := 0; i < frames/2; i++ {
+				b := hdr(next, true)
+				switch lr.Intn(3) {
+				case 0:
+					b = append(b, rt.WindowUpdate(next, 1<<31-1)...)
+				case 1:
+					b = append(b, append(rt.WindowUpdate(next, 1<<30), rt.WindowUpdate(next, 1<<30)...)...)
+				case 2: // a second HEADERS without END_STREAM on a half-closed (remote) stream: STREAM_CLOSED from the server
+					b = append(b, wire.Frame(nil, wire.TData, 0, next, []byte("late"), -1)...)
+				}
+				if !send(b) {
+					break
+				}
+				next += 2
+				if i%10 == 0 {
+					rt.Wait()
+				}
+			}
+		case "body-limit-boundary":
+			// no content-length; the body creeps up to the limit and the last frame, with END_STREAM, crosses it
+			for s := 0; s < m; s++ {
+				fs := []F{{Name: ":method", Value: "POST"}, {Name: ":scheme", Value: "https"}, {Name: ":path", Value: "/up"}, {Name: ":authority", Value: "u.example"}, {Name: "x-vtag", Value: fmt.Sprintf("%s.%d", id, next)}}
+				out := rt.Concat(rt.HeaderFrames(next, e.P.EncodeBlock(fs, nil), nil, -1, nil, false))
+				short := []int{0, 0, 1, 100, 5000}[lr.Intn(5)]
+				left := bodyLimit - short
+				if left < 0 {
+					left = 0
+				}
+				for left > 0 {
+					k := min(left, 1+lr.Intn(16384))
+					out = append(out, wire.Frame(nil, wire.TData, 0, next, make([]byte, k), -1)...)
+					left -= k
+				}
+				over := short + 1 + lr.Intn(16384-short)
+				out = append(out, wire.Frame(nil, wire.TData, wire.FEndStream, next, make([]byte, over), -1)...)
+				if !send(out) {
+					break
+				}
+				rt.Wait()
+				next += 2
+			}
+		case "continuation-endless-literal-refused":
+			// every slot is taken by a parked handler, so the next stream is refused and its header block only decoded
+			// to keep the compression state: the never-ending literal must not be buffered there either
+			for s := 0; s < m; s++ {
+				send(hdr(next, true))
+				next += 2
+			}
+			rt.Wait()
+			blk := reqBlock(e.P, next, id)
+			first := append(append([]byte{}, blk...), 0x00)
+			first = hpackref.AppendInt(first, 0, 7, 1<<40)
+			send(wire.Frame(nil, wire.THeaders, 0, next, first, -1))
+			for i := 0; i < frames; i++ {
+				if !send(wire.Frame(nil, wire.TContinuation, 0, next, make([]byte, 4096), -1)) {
+					break
+				}
+				if i%50 == 0 {
+					rt.Wait()
+				}
 			}
 		case "ping-flood", "settings-flood", "ping-flood-no-read":
 			if kind == "ping-flood-no-read" {
